@@ -116,7 +116,7 @@ func (f *Fn) UnderCond(l Loc, substrs ...string) bool {
 		txt := types.ExprString(c)
 		all := true
 		for _, s := range substrs {
-			if !strings.Contains(txt, s) {
+			if !containsPositive(txt, s) {
 				all = false
 			}
 		}
@@ -180,7 +180,7 @@ func (f *Fn) UnderCondFalse(l Loc, substrs ...string) bool {
 		txt := types.ExprString(c)
 		all := true
 		for _, s := range substrs {
-			if !strings.Contains(txt, s) {
+			if !containsPositive(txt, s) {
 				all = false
 			}
 		}
@@ -203,7 +203,7 @@ func (f *Fn) UnderCondArmAfter(l Loc, arm bool, after Matcher, substrs ...string
 		txt := types.ExprString(c)
 		all := true
 		for _, s := range substrs {
-			if !strings.Contains(txt, s) {
+			if !containsPositive(txt, s) {
 				all = false
 			}
 		}
@@ -332,4 +332,34 @@ func (f *Fn) CondsOf(n ast.Node) []string {
 		return false
 	})
 	return out
+}
+
+// containsPositive reports whether s occurs in the condition text txt at a position where it is
+// not directly negated: an occurrence preceded by "!" or "!(" does not count (so that a rule asking
+// for the arm of `x` is not satisfied by the arm of `!x`), unless s itself starts with "!".
+func containsPositive(txt, s string) bool {
+	if s == "" {
+		return true
+	}
+	for from := 0; ; {
+		i := strings.Index(txt[from:], s)
+		if i < 0 {
+			return false
+		}
+		i += from
+		pre := strings.TrimRight(txt[:i], " ")
+		neg := strings.HasSuffix(pre, "!") || strings.HasSuffix(pre, "!(")
+		// an identifier boundary on the left: "isNHCB" must not match inside "xisNHCB"
+		if len(pre) == len(txt[:i]) && i > 0 {
+			if c := txt[i-1]; c == '_' || c == '.' && false || (c >= 'a' && c <= 'z') || (c >= 'A' && c <= 'Z') || (c >= '0' && c <= '9') {
+				if s[0] != '.' && s[0] != '(' && s[0] != '[' && s[0] != ' ' {
+					neg = true
+				}
+			}
+		}
+		if !neg {
+			return true
+		}
+		from = i + 1
+	}
 }
